@@ -11,6 +11,7 @@ mod replay;
 mod stacks;
 mod tables;
 mod util;
+mod values;
 
 use std::env;
 
@@ -28,6 +29,7 @@ fn main() {
         "maps-drive" => maps::drive(rest),
         "modedit-replay" => util::run_cases(rest, modedit::replay_case),
         "modedit-drive" => modedit::drive(rest),
+        "values-row" => util::run_cases(rest, values::table_row),
         "table-replay" => util::run_cases(rest, tables::replay_case),
         "table-drive" => tables::drive(rest),
         other => {
